@@ -735,6 +735,7 @@ package redis
 
 //@ func init#1
 //@   prop C10 C11
+//@   modifies heap("[]uint32"), heap("@string"), buflen
 //@   assume forall x loc :: fresh(x) ==> buflen[x] == 0
 //@   loop 0 invariant 0 <= buflen[b] && buflen[b] <= 20 * (rangeindex + 1)
 //@   loop 0 invariant forall k int :: 0 <= k && k <= rangeindex ==> int(itoaOffset[k]) <= buflen[b]
@@ -773,7 +774,6 @@ package redis
 //@   prop C01 C14 C02
 //@   alsoprop C11 : no-panic
 //@   callpre SetResponse @locally-built-replies-are-one-line oneline(arg1)
-//@   assume oneline(respPong)
 //@   consumes req
 //@   nocall MakeRequest
 //@   nocall Send
@@ -782,7 +782,6 @@ package redis
 //@   prop C01 C14 C02
 //@   alsoprop C11 : no-panic
 //@   callpre SetResponse @locally-built-replies-are-one-line oneline(arg1)
-//@   assume oneline(respOK)
 //@   consumes req
 //@   nocall MakeRequest
 //@   nocall Send
@@ -791,7 +790,6 @@ package redis
 //@   prop C01 C14 C02
 //@   alsoprop C11 : no-panic
 //@   callpre SetResponse @locally-built-replies-are-one-line oneline(arg1)
-//@   assume oneline(respOK)
 //@   consumes req
 //@   nocall MakeRequest
 //@   nocall Send
@@ -958,6 +956,8 @@ package redis
 //@   prop C19 C07
 //@   alsoprop C11 : no-panic
 //@   ensures @published clientsok(result)
+//@   ensures @keeps-the-config-object-it-is-given result != nil && result.cfg == cfg
+//@   alsoprop C13 C14 : keeps-the-config-object-it-is-given
 //@   requires @hosts-present-one-per-address (forall k int :: 0 <= k && k < len(hosts) ==> hosts[k] != nil) && forall a int, b int :: 0 <= a && a < b && b < len(hosts) ==> hosts[a].Addr != hosts[b].Addr
 //@   callpre NewCollector @hot-key-capacity-at-least-one arg0 >= 1
 
@@ -1104,6 +1104,8 @@ package redis
 //@   alsoprop C11 : no-panic
 //@   modifies all
 //@   ensures @a-new-client-has-its-done-channel result1 == nil ==> result0 != nil && result0.done != nil
+//@   ensures @keeps-the-config-object-it-is-given result1 == nil ==> result0.cfg == cfg
+//@   alsoprop C13 C14 : keeps-the-config-object-it-is-given
 
 //@ func (*upstream).createClient
 //@   prop C07 C09
@@ -1111,6 +1113,8 @@ package redis
 //@   flag track-locks
 //@   callpre Dial @the-connection-is-made-while-the-client-table-is-locked held(u.clientsMu)
 //@   callpre addClientLocked @the-client-is-registered-while-the-table-is-still-locked held(u.clientsMu)
+//@   callpre newClient @connections-share-the-config-object-of-the-upstream arg1 == u.cfg
+//@   alsoprop C13 C14 : connections-share-the-config-object-of-the-upstream
 //@   requires clientsok(u)
 //@   assume u.cfg != nil && u.cfg.ConnectTimeout != nil && u.hkc != nil
 //@   modifies all
@@ -1184,7 +1188,6 @@ package redis
 //@   modifies all, atomdecs
 //@   callpre SetResponse @answered-only-by-the-child-that-brings-the-count-to-zero arg0 == r.raw && atomi32[r.childWait] == 0 && arg1 != nil
 //@   callpre SetResponse @locally-built-replies-are-one-line oneline(arg1)
-//@   assume oneline(respOK)
 //@   ensures @every-finished-child-is-counted-exactly-once atomdecs[r.childWait] == old(atomdecs[r.childWait]) + 1
 
 //@ func (*mgetRequest).onChildDone
@@ -1350,6 +1353,7 @@ package redis
 //@ func (*config).Update
 //@   prop C08 C13
 //@   alsoprop C11 : no-panic
+//@   alsoprop C14 C19 : the-new-configuration-is-in-force
 //@   requires c != nil
 //@   modifies c.Config
 //@   ensures @the-new-configuration-is-in-force c.Config == cfg
@@ -1367,6 +1371,8 @@ package redis
 //@   requires p != nil && p.cfg != nil
 //@   modifies all
 //@   callpre Update @the-pushed-configuration-is-the-one-applied arg0 == p.cfg && arg1 == newCfg
+//@   ensures @the-config-object-shared-with-the-upstream-and-its-connections-is-updated-in-place p.cfg == old(p.cfg) && (result == nil ==> p.cfg.Config == newCfg)
+//@   alsoprop C14 C19 : the-pushed-configuration-is-the-one-applied the-config-object-shared-with-the-upstream-and-its-connections-is-updated-in-place
 
 //@ func (*redisProc).Config
 //@   prop C08
@@ -1540,3 +1546,37 @@ package redis
 //@   modifies all
 //@   callpre Serve @the-listener-of-this-processor-is-served arg0 == deref(p).l
 //@   callpre Done @the-unit-is-given-back-once-serving-has-ended arg0 == deref(p).wg
+
+// ---- C13/C14/C08: one config object per processor, shared with its upstream (and, through it, with every
+// backend connection and its filters); configuration updates change that object in place ----------------------
+
+//@ func newRedisProc
+//@   prop C08 C13 C14
+//@   alsoprop C11 : no-panic
+//@   requires stats != nil && svcCfg != nil
+//@   modifies all
+//@   callpre newUpstream @the-upstream-shares-the-config-object-of-the-processor arg0 == p.cfg
+//@   assume @before:newUpstream (forall k int :: 0 <= k && k < len(svcHosts) ==> svcHosts[k] != nil) && forall a int, b int :: 0 <= a && a < b && b < len(svcHosts) ==> svcHosts[a].Addr != svcHosts[b].Addr
+
+// ---- C18: the terminating SCAN reply is built once, when the package is initialised: cursor "0" and an empty,
+// non-null key list (a null list would go out as *-1) ------------------------------------------------------------
+
+//@ func init
+//@   prop C18 C01
+//@   modifies all
+//@   assume itoaOffset[0] >= 0 && len(itoaBuffer) >= 0
+
+//@ func init#2
+//@   prop C13 C18
+//@   assume bannedCmdsInCps != nil && wkSkipCheckCmdsInDecps != nil && cpsHdrs != nil
+//@   modifies mapof(bannedCmdsInCps), mapof(wkSkipCheckCmdsInDecps), mapof(cpsHdrs), buflen, cpslen
+
+//@ func init#3
+//@   prop C14 C18
+//@   assume readOnlyCommands != nil
+//@   modifies mapof(readOnlyCommands)
+
+//@ func init#4
+//@   prop C08 C18
+//@   modifies mapof(proc.builderRegistry)
+//@   onlycalls RegisterBuilder
